@@ -104,8 +104,12 @@ func checkAVCConf(c avcConfCase) *harness.Fail {
 	}
 	s := &c.SPS[0].S
 	wantW, wantH := nalgen.AVCDisplaySize(&c.SPS[0])
-	// profiles for which every edition of 14496-15 puts chroma format and bit depths into the record
-	extSure := s.Profile == 100 || s.Profile == 110 || s.Profile == 122
+	// profiles for which the record carries chroma_format, bit_depth_luma_minus8, bit_depth_chroma_minus8 and
+	// numOfSequenceParameterSetExt behind the parameter sets: 100, 110, 122 and 144 in every edition of
+	// 14496-15 (5.3.3.1.2), 244 since the condition became "not 66, 77, 88"; for these the reference record
+	// writes the four bytes and every encode/decode step is compared with the SPS values. (The library has no
+	// input for SPS extension NAL units: numOfSequenceParameterSetExt is 0 in the reference.)
+	extSure := s.Profile == 100 || s.Profile == 110 || s.Profile == 122 || s.Profile == 144 || s.Profile == 244
 	// profiles for which the record (per the library's Size and per the newer editions) has those fields
 	extStruct := s.Profile != 66 && s.Profile != 77 && s.Profile != 88
 
@@ -253,16 +257,29 @@ func checkAVCConf(c avcConfCase) *harness.Fail {
 func TestAVCConf(t *testing.T) {
 	harness.RunRapid(t, "conf", func(rt *rapid.T) {
 		var c avcConfCase
-		c.SPS, c.PPS = esgen.GenAVCConfSets(rt)
+		c.SPS, c.PPS = esgen.GenAVCConfSetsOpt(rt, esgen.AVCConfProfiles)
 		nSPS, nPPS := len(c.SPS), len(c.PPS)
 		c.IncludePS = esgen.AVCChance(rt, 3, 4, "includePS")
 		c.SampleEntry = rapid.SampledFrom([]string{"avc1", "avc3"}).Draw(rt, "sample-entry")
 		p0 := c.SPS[0].S.Profile
-		c.EncodeBoxes = !esgen.AVCAvoid("avc-conf-avcc-size-encode-mismatch", p0 != 66 && p0 != 77 && p0 != 88 && p0 != 100 && p0 != 110 && p0 != 122)
+		c.EncodeBoxes = !esgen.AVCAvoid("avc-conf-avcc-size-encode-mismatch", p0 != 66 && p0 != 77 && p0 != 88 && p0 != 100 && p0 != 110 && p0 != 122 && p0 != 144)
 		cl := esgen.AVCSPSClasses(&c.SPS[0])
 		cl = append(cl, fmt.Sprintf("avc-conf-%s-ps%v", c.SampleEntry, c.IncludePS), fmt.Sprintf("avc-conf-nsps%d-npps%d", nSPS, nPPS))
+		switch p0 {
+		case 66, 77, 88:
+			cl = append(cl, "avc-conf-record-without-ext-fields")
+		case 100, 110, 122, 144, 244:
+			// the four trailing bytes are compared byte by byte and after every decode
+			cl = append(cl, "avc-conf-record-ext-fields-compared", fmt.Sprintf("avc-conf-record-ext-fields-profile-%d", p0))
+			s0 := &c.SPS[0].S
+			if esgen.AVCChromaFormatIDC(s0) != 1 || s0.BitDepthLumaMinus8 != 0 || s0.BitDepthChromaMinus8 != 0 {
+				cl = append(cl, "avc-conf-record-ext-fields-not-420-8bit")
+			}
+		default:
+			cl = append(cl, "avc-conf-record-ext-fields-edition-dependent")
+		}
 		raw, _ := json.Marshal(c)
-		harness.Rec.Case(esgen.AVCNontrivial(cl, "avc-sps-profile-", "avc-sps-poc0", "avc-sps-baseline-main-extended", "avc-conf-avc1-pstrue", "avc-conf-nsps1-npps1"), raw, cl...)
+		harness.Rec.Case(esgen.AVCNontrivial(cl, "avc-sps-profile-", "avc-sps-poc0", "avc-sps-baseline-main-extended", "avc-conf-avc1-pstrue", "avc-conf-nsps1-npps1", "avc-conf-record-without-ext-fields"), raw, cl...)
 		if harness.Rec.WantSample() {
 			harness.Rec.Sample(map[string]interface{}{"kind": "avcconf", "case": c})
 		}
